@@ -627,14 +627,37 @@ func cmdCheck(args []string) int {
 		}
 		sort.Strings(sl)
 		ranTest := map[string]bool{}
+		// a witness attached to a recorded finding fails on the unchanged tree: it decides nothing here
+		findingWitness := map[string]bool{}
+		for _, k := range known {
+			if k.Kind == "finding" && k.Replay != "" {
+				findingWitness[filepath.Base(k.Replay)] = true
+			}
+		}
 		for _, l := range sl {
 			reason := strings.Join(stale[l], "; ")
-			e := findReplay(*prop, l+"/")
+			// every replay test registered for this function (under the function itself or under
+			// one of its obligations) is a witness; the first that fails on the code decides
+			var e *replayEntry
 			confirmed := false
 			out := ""
-			if e != nil && !ranTest[e.Test] {
-				ranTest[e.Test] = true
-				confirmed, out = runReplayTest(e, map[string]string{})
+			for _, re := range loadReplayMap(verifDir) {
+				re := re
+				if re.Property != *prop || confirmed || ranTest[re.Test] || findingWitness[re.Test] {
+					continue
+				}
+				if !strings.HasPrefix(re.Obligation, l+"/") && !(re.Obligation != "" && strings.HasPrefix(l+"/", re.Obligation)) {
+					continue
+				}
+				ranTest[re.Test] = true
+				if e == nil {
+					e = &re
+				}
+				if ok, o := runReplayTest(&re, map[string]string{}); ok {
+					confirmed, out, e = true, o, &re
+				} else if out == "" {
+					out = o
+				}
 			}
 			if l == "<declarations>" {
 				// no single function: every replay test registered for the property is a witness
